@@ -72,6 +72,20 @@ pub fn eval_expect(expect: &Expect, rep: &RunReport, session: usize, stmt: usize
     }
     match expect {
         Expect::Completes | Expect::NoPanic => None,
+        Expect::AllOf(members) => {
+            let mut first: Option<(String, String)> = None;
+            for m in members {
+                match eval_expect(m, rep, session, stmt) {
+                    None => return None,
+                    Some(v) => {
+                        if first.is_none() {
+                            first = Some(v);
+                        }
+                    }
+                }
+            }
+            first
+        }
         Expect::Success => match o {
             Outcome::Error { msg, .. } => Some(("unexpected-error".into(), first_line(msg))),
             _ => None,
